@@ -46,7 +46,7 @@ func getHostAPI(p *ir.Prog) *hostAPI {
 	h.signHash = p.Method("types", "PrivateKey", "SignHash")
 	h.contractSig = p.Method("consensus", "State", "ContractSigHash")
 	h.renewalSig = p.Method("consensus", "State", "RenewalSigHash")
-	h.hostKey = p.Field("rhp", "Server", "hostKey")
+	h.hostKey = p.FieldOr("rhp", "Server", "hostKey", isNamedT("types", "PrivateKey"))
 	for _, f := range p.MethodsOf("rhp", "Server") {
 		if len(f.CallsTo(false, h.readRequest)) > 0 {
 			h.handlers = append(h.handlers, f)
